@@ -1,12 +1,12 @@
 SPECIFICATION Spec
 CONSTANTS
-  Cases <- ImplCases
+  Cases <- RepCases
   Expand <- McExpand
-  Esc = "raw"
+  Esc = "escape"
   Header = "first"
   Merge = "grid"
   Sep = "each"
-  Dedup = "none"
+  Dedup = "seen"
   MaxSpecial = 1
   FullCells = 0
   MaxRepeat = 2
